@@ -34,7 +34,7 @@ Proof.
     destruct (timed m && tmo_neg T).
     { inversion Hs; subst. apply inv2_app_plain; auto. discriminate. }
     destruct (is_none (owner s (lock_of m))) eqn:Hfree.
-    + unfold acquire in Hs. destruct (parks m).
+    + unfold ClientLocks.acquire in Hs. destruct (parks m).
       * inversion Hs; subst. clear Hs. intros k' c Hl Hh. rewrite cs_set in Hl. destruct (Nat.eq_dec k' k).
         -- subst. rewrite lookup_app_fresh in Hl by assumption. inversion Hl; subst. simpl. apply owner_set_same.
         -- rewrite lookup_app_other in Hl by assumption. specialize (Hi k' c Hl Hh).
@@ -46,7 +46,7 @@ Proof.
   - destruct (lookup k (cs s)) as [c|] eqn:Hl; [|discriminate].
     destruct (c_ph c) eqn:Hp; try discriminate.
     destruct (is_none (owner s (lock_of (c_m c)))) eqn:Hfree; [|discriminate].
-    unfold acquire in Hs. destruct (parks (c_m c)).
+    unfold ClientLocks.acquire in Hs. destruct (parks (c_m c)).
     + inversion Hs; subst. clear Hs. intros k' c' Hl' Hh. rewrite cs_set in Hl'. destruct (Nat.eq_dec k' k).
       * subst. rewrite (lookup_update_same k PHold (cs s) c Hl) in Hl'. inversion Hl'; subst. simpl. apply owner_set_same.
       * rewrite lookup_update_other in Hl' by assumption. specialize (Hi k' c' Hl' Hh).
@@ -81,4 +81,213 @@ Lemma bodies_exclusive_proof : forall s k1 k2 c1 c2, reachable s ->
 Proof.
   intros s k1 k2 c1 c2 R L1 L2 P1 P2 E. assert (I := reachable_inv2 s R).
   assert (H1 := I k1 c1 L1 P1). assert (H2 := I k2 c2 L2 P2). rewrite E in H1. rewrite H1 in H2. inversion H2. reflexivity.
+Qed.
+
+(* ---- B *)
+Definition inv3 (s : cst) : Prop := forall k c, lookup k (cs s) = Some c -> c_ph c = PHold -> parks (c_m c) = true.
+
+Lemma lookup_update_none : forall k ph l, lookup k l = None -> lookup k (update k ph l) = None.
+Proof.
+  induction l as [|d r IH]; simpl; intros H; auto. destruct (Nat.eqb (c_id d) k) eqn:X; [discriminate|]. simpl. rewrite X. auto.
+Qed.
+
+Lemma isb_spec : forall k c, in_send_body k c = true <-> exists x, lookup k (cs c) = Some x /\ c_m x = MSend /\ c_ph x = PHold.
+Proof.
+  intros k c. unfold in_send_body, phase_of. destruct (lookup k (cs c)) as [x|].
+  - destruct (c_m x) eqn:M; destruct (c_ph x) eqn:P; split; intros H; try discriminate; eauto;
+      destruct H as [y [E [A B]]]; inversion E; subst; congruence.
+  - split; [discriminate|]. intros [x [E _]]. discriminate.
+Qed.
+
+Lemma isb_owner : forall k c, inv2 c -> in_send_body k c = true -> o_send c = Some k.
+Proof. intros k c I H. apply isb_spec in H. destruct H as [x [L [M P]]]. specialize (I k x L P). rewrite M in I. exact I. Qed.
+
+(* what one ClientLocks step does to "who is inside a send body" and to the send lock *)
+Lemma step_facts : forall c lb c', inv3 c -> step c lb = Some c' ->
+  let k := label_call lb in
+  inv3 c' /\
+  (forall u, u <> k -> lookup u (cs c') = lookup u (cs c)) /\
+  ((in_send_body k c = false /\ in_send_body k c' = true /\ o_send c = None) \/
+   (in_send_body k c = true /\ in_send_body k c' = false /\ o_send c' = None) \/
+   (in_send_body k c = false /\ in_send_body k c' = false /\ o_send c' = o_send c)).
+Proof.
+  intros c lb c' I3 Hs. destruct lb as [k m T | k | k | k ok]; simpl in *.
+  - destruct (lookup k (cs c)) eqn:Hf; [discriminate|].
+    assert (B0 : in_send_body k c = false) by (unfold in_send_body, phase_of; rewrite Hf; reflexivity).
+    assert (OT : forall ph u, u <> k -> lookup u (cs c ++ [mk_call k m ph]) = lookup u (cs c)).
+    { intros. apply lookup_app_other; auto. }
+    assert (I3' : forall ph o1 o2, (ph = PHold -> parks m = true) -> inv3 (mk_cst o1 o2 (cs c ++ [mk_call k m ph]))).
+    { intros ph o1 o2 Hp u x Hl Hh. simpl in Hl. destruct (Nat.eq_dec u k).
+      - subst. rewrite lookup_app_fresh in Hl by assumption. inversion Hl; subst. simpl in *. auto.
+      - rewrite lookup_app_other in Hl by assumption. eapply I3; eauto. }
+    assert (BN : forall ph o1 o2, (ph = PHold -> m <> MSend) ->
+                 in_send_body k (mk_cst o1 o2 (cs c ++ [mk_call k m ph])) = false).
+    { intros ph o1 o2 Hp. unfold in_send_body, phase_of. simpl. rewrite lookup_app_fresh by assumption. simpl.
+      destruct m; auto. destruct ph; auto. exfalso. apply Hp; auto. }
+    destruct (timed m && tmo_neg T).
+    { inversion Hs; subst. split; [apply I3'; discriminate|]. split; [intros; simpl; apply OT; auto|].
+      right; right. rewrite BN by discriminate. auto. }
+    destruct (is_none (owner c (lock_of m))) eqn:Hfree.
+    + unfold ClientLocks.acquire in Hs. destruct (parks m) eqn:Pk.
+      * inversion Hs; subst. clear Hs. destruct m; simpl in *; try discriminate.
+        -- split; [apply I3'; auto|]. split; [intros; simpl; apply OT; auto|]. left. split; auto. split.
+           ++ unfold in_send_body, phase_of. simpl. rewrite lookup_app_fresh by assumption. reflexivity.
+           ++ destruct (o_send c); [discriminate|reflexivity].
+        -- split; [apply I3'; auto|]. split; [intros; simpl; apply OT; auto|]. right; right. rewrite BN by discriminate. auto.
+      * inversion Hs; subst. split; [apply I3'; discriminate|]. split; [intros; simpl; apply OT; auto|].
+        right; right. rewrite BN by discriminate. auto.
+    + destruct (timed m && tmo_le0 T); inversion Hs; subst; (split; [apply I3'; discriminate|]); (split; [intros; simpl; apply OT; auto|]);
+        right; right; rewrite BN by discriminate; auto.
+  - destruct (lookup k (cs c)) as [x|] eqn:Hl; [|discriminate].
+    destruct (c_ph x) eqn:Hp; try discriminate.
+    destruct (is_none (owner c (lock_of (c_m x)))) eqn:Hfree; [|discriminate].
+    assert (B0 : in_send_body k c = false) by (unfold in_send_body, phase_of; rewrite Hl, Hp; destruct (c_m x); reflexivity).
+    assert (I3' : forall ph o1 o2, (ph = PHold -> parks (c_m x) = true) -> inv3 (mk_cst o1 o2 (update k ph (cs c)))).
+    { intros ph o1 o2 Hq u y Hu Hh. simpl in Hu. destruct (Nat.eq_dec u k).
+      - subst. rewrite (lookup_update_same k ph (cs c) x Hl) in Hu. inversion Hu; subst. simpl in *. auto.
+      - rewrite lookup_update_other in Hu by assumption. eapply I3; eauto. }
+    unfold ClientLocks.acquire in Hs. destruct (parks (c_m x)) eqn:Pk.
+    + inversion Hs; subst. clear Hs. destruct (c_m x) eqn:M; simpl in *; try discriminate.
+      * split; [apply I3'; auto|]. split; [intros; apply lookup_update_other; auto|]. left. split; auto. split.
+        -- unfold in_send_body, phase_of. simpl. rewrite (lookup_update_same k PHold (cs c) x Hl). simpl. rewrite M. reflexivity.
+        -- destruct (o_send c); [discriminate|reflexivity].
+      * split; [apply I3'; auto|]. split; [intros; apply lookup_update_other; auto|]. right; right. split; auto. split; auto.
+        unfold in_send_body, phase_of. simpl. rewrite (lookup_update_same k PHold (cs c) x Hl). simpl. rewrite M. reflexivity.
+    + inversion Hs; subst. split; [apply I3'; discriminate|]. split; [intros; simpl; apply lookup_update_other; auto|].
+      right; right. split; auto. split; auto.
+      unfold in_send_body, phase_of. simpl. rewrite (lookup_update_same k _ (cs c) x Hl). simpl. destruct (c_m x); reflexivity.
+  - destruct (lookup k (cs c)) as [x|] eqn:Hl; [|discriminate].
+    destruct (c_ph x) as [[|]| |] eqn:Hp; try discriminate. inversion Hs; subst. split; [|split].
+    + intros u y Hu Hh. simpl in Hu. destruct (Nat.eq_dec u k).
+      * subst. rewrite (lookup_update_same k _ (cs c) x Hl) in Hu. inversion Hu; subst. discriminate.
+      * rewrite lookup_update_other in Hu by assumption. eapply I3; eauto.
+    + intros; simpl; apply lookup_update_other; auto.
+    + right; right. split; [unfold in_send_body, phase_of; rewrite Hl, Hp; destruct (c_m x); reflexivity|]. split; auto.
+      unfold in_send_body, phase_of. simpl. rewrite (lookup_update_same k _ (cs c) x Hl). simpl. destruct (c_m x); reflexivity.
+  - destruct (lookup k (cs c)) as [x|] eqn:Hl; [|discriminate].
+    destruct (c_ph x) eqn:Hp; try discriminate. inversion Hs; subst. clear Hs.
+    assert (Pk := I3 k x Hl Hp). split; [|split].
+    + intros u y Hu Hh. rewrite cs_set in Hu. destruct (Nat.eq_dec u k).
+      * subst. rewrite (lookup_update_same k _ (cs c) x Hl) in Hu. inversion Hu; subst. discriminate.
+      * rewrite lookup_update_other in Hu by assumption. eapply I3; eauto.
+    + intros. rewrite cs_set. apply lookup_update_other; auto.
+    + assert (BA : in_send_body k (set_owner c (lock_of (c_m x)) None (update k (PDone (if ok then 0%Z else E_CONN)) (cs c))) = false).
+      { unfold in_send_body, phase_of. rewrite cs_set, (lookup_update_same k _ (cs c) x Hl). simpl. destruct (c_m x); reflexivity. }
+      destruct (c_m x) eqn:M; simpl in *; try discriminate.
+      * right; left. split; [unfold in_send_body, phase_of; rewrite Hl, Hp, M; reflexivity|]. split; auto.
+      * right; right. split; [unfold in_send_body, phase_of; rewrite Hl, Hp, M; reflexivity|]. split; auto.
+Qed.
+
+Record BI (s : bst) : Prop := mkBI {
+  bi_inv2 : inv2 (b_c s);
+  bi_inv3 : inv3 (b_c s);
+  bi_wire : b_wire s = concat (map seg_bytes (rev (b_segs s)));
+  bi_ok : Forall seg_ok (b_segs s);
+  bi_tail : Forall not_active (tl (b_segs s));
+  bi_link : forall k, in_send_body k (b_c s) = true ->
+            exists g r, b_segs s = g :: r /\ sg_owner g = k /\ sg_st g = SgActive /\
+                        skipn (sg_written g) (sg_pkt g) = aget k (b_todo s);
+  bi_idle : o_send (b_c s) = None -> Forall not_active (b_segs s)
+}.
+
+Lemma BI_init : BI b_init.
+Proof.
+  constructor; simpl; auto.
+  - intros k c H. discriminate.
+  - intros k c H. discriminate.
+  - intros k H. discriminate.
+Qed.
+
+Lemma isb_other : forall c c' k u, (forall u, u <> k -> lookup u (cs c') = lookup u (cs c)) -> u <> k ->
+  in_send_body u c' = in_send_body u c.
+Proof. intros c c' k u H N. unfold in_send_body, phase_of. rewrite (H u N). reflexivity. Qed.
+
+Lemma aget_cons_same : forall k v l, aget k ((k, v) :: l) = v.
+Proof. intros. unfold aget. simpl. rewrite Nat.eqb_refl. reflexivity. Qed.
+
+Lemma seg_close_props : forall c sgs g r, sgs = g :: r -> sg_st g = SgActive -> c <> SgActive ->
+  Forall seg_ok sgs -> Forall not_active r ->
+  (c = SgComplete -> skipn (sg_written g) (sg_pkt g) = []) ->
+  concat (map seg_bytes (rev (seg_close c sgs))) = concat (map seg_bytes (rev sgs)) /\
+  Forall seg_ok (seg_close c sgs) /\ Forall not_active (seg_close c sgs).
+Proof.
+  intros c sgs g r E A N Hok Ht Hc. subst sgs. simpl. inversion Hok; subst. destruct H1 as [Hle _]. split; [|split].
+  - rewrite !map_app. unfold seg_bytes. simpl. reflexivity.
+  - constructor; auto. split; simpl; auto. intros X. apply Hc in X. apply skipn_nil_ge in X. lia.
+  - constructor; auto.
+Qed.
+
+Lemma BI_step : forall s l s', BI s -> b_step s l = Some s' -> BI s'.
+Proof.
+  intros s l s' [I2 I3 Hw Hok Ht Hl Hi] H. destruct l as [lb pkt|k]; simpl in H.
+  - set (k := label_call lb) in *.
+    match type of H with (if ?b then _ else _) = _ => destruct b eqn:OKF end; [discriminate|]. apply negb_false_iff in OKF.
+    destruct (step (b_c s) lb) as [c'|] eqn:S; [|discriminate].
+    assert (I2' := step_preserves_inv2 _ _ _ I2 S).
+    destruct (step_facts _ _ _ I3 S) as [I3' [OT Cases]]. fold k in OT, Cases.
+    assert (Uniq : forall u, in_send_body u c' = true -> in_send_body k c' = true -> u = k).
+    { intros u A B. apply (isb_owner _ _ I2') in A. apply (isb_owner _ _ I2') in B. congruence. }
+    destruct Cases as [[B0 [B1 O0]]|[[B0 [B1 O1]]|[B0 [B1 O1]]]]; rewrite B0, B1 in H; simpl in H; inversion H; subst; clear H.
+    + (* the send enters its body *)
+      specialize (Hi O0). constructor; simpl; auto.
+      * rewrite map_app, concat_app. simpl. rewrite !app_nil_r. exact Hw.
+      * constructor; auto. split; simpl; [lia|discriminate].
+      * intros u Hu. assert (u = k) by (apply Uniq; auto). subst u.
+        eexists. eexists. split; [reflexivity|]. simpl. rewrite aget_cons_same. auto.
+      * intros X. apply (isb_owner _ _ I2') in B1. congruence.
+    + (* the send leaves its body *)
+      destruct (Hl k B0) as [g [r [E [Eo [Ea Ek]]]]].
+      assert (NA : match lb with Finish _ true => SgComplete | _ => SgAborted end <> SgActive) by (destruct lb as [| | |? []]; discriminate).
+      assert (HC : match lb with Finish _ true => SgComplete | _ => SgAborted end = SgComplete -> skipn (sg_written g) (sg_pkt g) = []).
+      { intros X. destruct lb as [| | |? []]; try discriminate. rewrite B0 in OKF. simpl in OKF.
+        rewrite Ek. fold k. destruct (aget k (b_todo s)); [reflexivity|discriminate]. }
+      rewrite E in Ht. simpl in Ht.
+      destruct (seg_close_props _ _ g r E Ea NA Hok Ht HC) as [P1 [P2 P3]].
+      constructor; simpl; auto.
+      * rewrite P1. exact Hw.
+      * rewrite E. simpl. exact Ht.
+      * intros u Hu. exfalso. destruct (Nat.eq_dec u k); [subst; congruence|].
+        rewrite (isb_other _ _ k u OT n) in Hu. assert (X := isb_owner _ _ I2 Hu). assert (Y := isb_owner _ _ I2 B0). congruence.
+    + (* nothing happens to the send lock *)
+      constructor; simpl; auto.
+      * intros u Hu. destruct (Nat.eq_dec u k); [subst; congruence|]. rewrite (isb_other _ _ k u OT n) in Hu. apply Hl; auto.
+      * rewrite O1. exact Hi.
+  - destruct (in_send_body k (b_c s)) eqn:B; [|discriminate].
+    destruct (aget k (b_todo s)) as [|pc more] eqn:TD; [discriminate|]. inversion H; subst; clear H.
+    destruct (Hl k B) as [g [r [E [Eo [Ea Ek]]]]]. rewrite TD in Ek. rewrite E in *. simpl in Ht.
+    inversion Hok; subst. destruct H1 as [Hle Hc].
+    constructor; simpl; auto.
+    + rewrite Hw. simpl. repeat rewrite map_app, concat_app. simpl. repeat rewrite app_nil_r.
+      rewrite <- app_assoc. f_equal. unfold seg_bytes. cbn [sg_written sg_pkt].
+      rewrite (firstn_S_skipn _ _ _ _ Ek), concat_app. simpl. rewrite app_nil_r. reflexivity.
+    + constructor; auto. split; simpl; [apply skipn_cons_lt in Ek; lia|congruence].
+    + intros u Hu. assert (u = sg_owner g).
+      { assert (X := isb_owner _ _ I2 Hu). assert (Y := isb_owner _ _ I2 B). congruence. }
+      subst u. eexists. eexists. split; [reflexivity|]. simpl. rewrite aget_cons_same. repeat split; auto.
+      eapply skipn_cons_S; eauto.
+    + intros X. assert (Y := isb_owner _ _ I2 B). congruence.
+Qed.
+
+Lemma BI_run : forall ls s s', BI s -> b_run s ls = Some s' -> BI s'.
+Proof.
+  induction ls as [|l ls IH]; simpl; intros s s' I H.
+  - inversion H; subst; auto.
+  - destruct (b_step s l) as [s1|] eqn:E; [|discriminate]. eapply IH; [|eauto]. eapply BI_step; eauto.
+Qed.
+
+Lemma blocking_wire_is_concat_of_packets_proof :
+  forall ls s, b_run b_init ls = Some s ->
+    b_wire s = concat (map seg_bytes (rev (b_segs s))) /\
+    (forall g, In g (b_segs s) -> (sg_written g <= length (sg_pkt g))%nat /\
+                                  (sg_st g = SgComplete -> seg_bytes g = pkt_bytes (sg_pkt g))) /\
+    Forall not_active (tl (b_segs s)) /\
+    (forall k, in_send_body k (b_c s) = true -> o_send (b_c s) = Some k /\ exists g r, b_segs s = g :: r /\ sg_owner g = k) /\
+    (all_complete (b_segs s) -> b_wire s = concat (map (fun g => pkt_bytes (sg_pkt g)) (rev (b_segs s)))).
+Proof.
+  intros ls s R. apply BI_run in R; [|apply BI_init]. destruct R as [I2 I3 Hw Hok Ht Hl Hi].
+  split; [auto|]. split; [|split; [auto|split]].
+  - intros g Hg. rewrite Forall_forall in Hok. destruct (Hok g Hg) as [Hle Hc]. split; auto.
+    intros C. unfold seg_bytes, pkt_bytes. rewrite (Hc C), firstn_all. reflexivity.
+  - intros k B. split; [apply isb_owner; auto|]. destruct (Hl k B) as [g [r [E [Eo _]]]]. eauto.
+  - intros C. rewrite Hw. f_equal. apply complete_bytes; apply Forall_rev; auto.
 Qed.
